@@ -105,3 +105,124 @@ package syntax
 //@   ensures @calleenil result && call != nil && isnil(myCallables.Table[call.DecId]) ==> isnil(otherCallables.Table[other.DecId])
 //@   ensures @callee result && call != nil && !isnil(myCallables.Table[call.DecId]) ==> !isnil(otherCallables.Table[other.DecId]) && fn(syntax.Callable.EquivalentTo, myCallables.Table[call.DecId], otherCallables.Table[other.DecId], myCallables, otherCallables)
 //@   ensures @complete call != nil && other != nil && call.Id == other.Id && fn(syntax.BindStms.Equals, call.Bindings, other.Bindings) && fn(syntax.Modifiers.EquivalentTo, call.Modifiers, other.Modifiers) && !isnil(myCallables.Table[call.DecId]) && !isnil(otherCallables.Table[other.DecId]) && fn(syntax.Callable.EquivalentTo, myCallables.Table[call.DecId], otherCallables.Table[other.DecId], myCallables, otherCallables) ==> result
+
+// ---------------------------------------------------------------- C08 lexer helpers are total on what the token rules admit
+//
+// matches(rule, s): s is in the language of the tokenizer's own regular
+// expression `rule` (automaton extracted from tokenizer.go on every run).
+
+//@ func syntax.unhex property C08
+//@   nopanic
+//@   pure
+//@   requires ('0' <= c && c <= '9') || ('a' <= c && c <= 'f') || ('A' <= c && c <= 'F')
+//@   ensures result < 16
+
+//@ func syntax.parseHexByte property C08
+//@   nopanic
+//@   pure
+//@   requires ('0' <= c0 && c0 <= '9') || ('a' <= c0 && c0 <= 'f') || ('A' <= c0 && c0 <= 'F')
+//@   requires ('0' <= c1 && c1 <= '9') || ('a' <= c1 && c1 <= 'f') || ('A' <= c1 && c1 <= 'F')
+
+//@ func syntax.unquoteBytes property C08
+//@   mode bytes
+//@   nopanic
+//@   uses utf8
+//@   requires matches(tokStringRule, value)
+//@   loop 1 invariant len(value0) >= 2 && base(value) == base(value0) && off(value) >= off(value0) + 1 && off(value) + len(value) == off(value0) + len(value0) - 1
+//@   loop 1 invariant arr(value0) == old(arr(value0))
+//@   loop 1 invariant rrun(tokStringRule, value0, off(value) - off(value0)) == rstate(tokStringRule, "\"")
+//@   loop 1 invariant base(buf) != base(value0) && cap(value) >= len(value)
+//@   loop 1 decreases len(value)
+
+//@ func syntax.parseIntOk property C08
+//@   opt runtrigger off
+//@   mode bytes
+//@   arith wrap
+//@   nopanic
+//@   pure
+//@   opt deterministic on
+//@   opt replay parseint
+//@   requires matches(tokIntRule, s)
+//@   loop 1 invariant 0 <= iter && iter <= len(s)
+//@   loop 1 invariant 0 <= n && n < 18446744073709551616
+
+//@ func syntax.parseInt property C08
+//@   mode bytes
+//@   nopanic
+//@   pure
+//@   opt replay parseint
+//@   requires matches(tokIntRule, s)
+//@   requires fn(syntax.parseIntOk, s).1
+
+//@ func syntax.floatInRange property C08
+//@   mode bytes
+//@   nopanic
+//@   pure
+//@   opt deterministic on
+//@   ensures result == isnil(fn(strconv.ParseFloat, str(s), 64).1)
+
+//@ func syntax.parseFloat property C08
+//@   mode bytes
+//@   nopanic
+//@   pure
+//@   requires isnil(fn(strconv.ParseFloat, str(s), 64).1)
+
+//@ func syntax.bytesPrefixString property C08
+//@   mode bytes
+//@   nopanic
+//@   pure
+//@   ensures isnil(result) || (base(result) == base(b) && off(result) == off(b) && len(result) == len(s) && len(s) <= len(b))
+//@   loop 1 invariant len(s) <= len(b)
+
+//@ func syntax.leadingSpace property C08
+//@   mode bytes
+//@   nopanic
+//@   pure
+//@   uses utf8
+//@   ensures result.1 == SKIP
+//@   ensures isnil(result.0) || (base(result.0) == base(b) && off(result.0) == off(b) && len(result.0) <= len(b))
+//@   loop 1 invariant 0 <= i && i <= len(b)
+//@   loop 1 decreases len(b) - i
+
+//@ func syntax.tokCommentRule property C08
+//@   mode bytes
+//@   nopanic
+//@   pure
+//@   uses utf8
+//@   ensures isnil(result.0) || (base(result.0) == base(b) && off(result.0) == off(b) && len(result.0) <= len(b))
+//@   ensures len(result.0) > 0 ==> result.1 == COMMENT
+//@   loop 1 invariant 1 <= i && i <= len(b)
+//@   loop 1 decreases len(b) - i
+
+//@ func syntax.keywordToken property C08
+//@   mode bytes
+//@   nopanic
+//@   pure
+//@   ensures @prefix isnil(result.0) || (base(result.0) == base(b) && off(result.0) == off(b) && len(result.0) <= len(b))
+//@   ensures @int len(result.0) > 0 && result.1 == NUM_INT ==> matches(tokIntRule, result.0) && fn(syntax.parseIntOk, result.0).1
+//@   ensures @float len(result.0) > 0 && result.1 == NUM_FLOAT ==> matches(tokFloatRule, result.0) && isnil(fn(strconv.ParseFloat, str(result.0), 64).1)
+//@   ensures @string len(result.0) > 0 && result.1 == LITSTRING ==> matches(tokStringRule, result.0)
+//@   ensures @nonzero len(result.0) > 0 ==> result.1 != 0
+
+//@ func syntax.nextToken property C08
+//@   mode bytes
+//@   nopanic
+//@   pure
+//@   ensures @prefix isnil(result.1) || (base(result.1) == base(head) && off(result.1) == off(head) && len(result.1) <= len(head))
+//@   ensures @progress result.0 == SKIP || result.0 == COMMENT ==> len(result.1) > 0
+//@   ensures @int len(result.1) > 0 && result.0 == NUM_INT ==> matches(tokIntRule, result.1) && fn(syntax.parseIntOk, result.1).1
+//@   ensures @float len(result.1) > 0 && result.0 == NUM_FLOAT ==> matches(tokFloatRule, result.1) && isnil(fn(strconv.ParseFloat, str(result.1), 64).1)
+//@   ensures @string len(result.1) > 0 && result.0 == LITSTRING ==> matches(tokStringRule, result.1)
+//@   ensures @nonzero result.0 != 0
+
+// The lexer cannot spin: every iteration that does not return consumes input.
+//@ func syntax.mmLexInfo.Lex property C08
+//@   mode bytes
+//@   nopanic
+//@   requires self != nil && lval != nil
+//@   requires 0 <= self.pos && self.pos <= len(self.src)
+//@   ensures @pos 0 <= self.pos && self.pos <= len(self.src)
+//@   ensures @eof result == 0 ==> self.pos >= len(self.src)
+//@   loop 1 invariant 0 <= self.pos && self.pos <= len(self.src) && self.src == old(self.src)
+//@   loop 1 decreases len(self.src) - self.pos
+//@   loop 2 invariant 0 <= iter && 0 <= self.pos && self.pos <= len(self.src) && self.src == old(self.src)
